@@ -629,7 +629,9 @@ func (l *Lexer) readBacktick() (string, error) {
 			break
 		}
 	}
-	return string(l.characters[position:l.position]), err
+	// Carriage returns are not part of a raw string, so that its value does not
+	// depend on the line endings of the source file
+	return strings.ReplaceAll(string(l.characters[position:l.position]), "\r", ""), err
 }
 
 func (l *Lexer) peekChar() rune {
